@@ -9,3 +9,5 @@ import Proofs.C08
 #print axioms C08.project_values_only_unit
 #print axioms C08.nonsingular_spec
 #print axioms C08.nonsingular_order
+#print axioms C08.fullExcluded_perm_invariant
+#print axioms C08.exclusion_order_independent_partial
